@@ -821,15 +821,15 @@ pub trait Pr { type Out; }
 impl Pr for Yes { type Out = Yes; }
 impl Pr for No { type Out = No; }
 
-pub fn fmt_any<T>(_: &T, f: &mut fmt::Formatter<'_>) -> fmt::Result { f.write_str("_") }
+pub fn fmt_any<T: ?Sized>(_: &T, f: &mut fmt::Formatter<'_>) -> fmt::Result { f.write_str("_") }
 pub fn clone_any<T>(_: &T) -> T { unreachable!() }
-pub fn eq_any<T>(_: &T, _: &T) -> bool { true }
-pub fn pcmp_any<T>(_: &T, _: &T) -> Option<Ordering> { None }
-pub fn cmp_any<T>(_: &T, _: &T) -> Ordering { Ordering::Equal }
-pub fn pcmp_same<T>(_: &T, _: &T) -> Option<Ordering> { Some(Ordering::Equal) }
+pub fn eq_any<T: ?Sized>(_: &T, _: &T) -> bool { true }
+pub fn pcmp_any<T: ?Sized>(_: &T, _: &T) -> Option<Ordering> { None }
+pub fn cmp_any<T: ?Sized>(_: &T, _: &T) -> Ordering { Ordering::Equal }
+pub fn pcmp_same<T: ?Sized>(_: &T, _: &T) -> Option<Ordering> { Some(Ordering::Equal) }
 pub fn pcmp_std<T: PartialOrd>(a: &T, b: &T) -> Option<Ordering> { PartialOrd::partial_cmp(a, b) }
 pub fn cmp_std<T: Ord>(a: &T, b: &T) -> Ordering { Ord::cmp(a, b) }
-pub fn hash_any<T, H: Hasher>(_: &T, _: &mut H) {}
+pub fn hash_any<T: ?Sized, H: Hasher>(_: &T, _: &mut H) {}
 pub fn make_any<T>() -> T { unreachable!() }
 pub fn into_any<T, U>(_: T) -> U { unreachable!() }
 
